@@ -25,7 +25,9 @@ PROP = 'C07'
 
 
 def abstract_mesh(shape):
-  return jax.sharding.AbstractMesh(tuple(int(s) for s in shape), ('z', 'x', 'y'))
+  order = shape[3] if len(shape) > 3 else 'zxy'
+  sizes = dict(zip('zxy', (int(s) for s in shape[:3])))
+  return jax.sharding.AbstractMesh(tuple(sizes[a] for a in order), tuple(order))
 
 
 RING_SIZES = [1, 1, 2, 2, 2, 4, 4, 6, 8, 3, 5, 10, 12, 16]
@@ -63,7 +65,9 @@ def draw_config(rng: random.Random, opts) -> dict:
       layers = 2 if z == 1 else z
   else:
     layers = rng.randint(2, 6)
-  return {'mesh': mesh, 'grid': grid, 'knobs': knobs, 'model': model,
+  return {'mesh': mesh,
+          'mesh_order': rng.choice(['zxy', 'zxy', 'zxy', 'xyz', 'yxz', 'xzy', 'zyx', 'yzx']),
+          'grid': grid, 'knobs': knobs, 'model': model,
           'layers': layers,
           'sigma': gen.draw_sigma_boundaries(rng, layers, uneven=rng.random() < 0.75),
           'tref': gen.draw_tref(rng, layers, constant=rng.random() < 0.3),
